@@ -5,6 +5,8 @@ import (
 	"encoding/json"
 	"fmt"
 
+	"github.com/tigerwill90/fox"
+
 	. "verifharness/conc"
 	"verifharness/mc"
 )
@@ -89,6 +91,25 @@ func Generated(quick bool) []*Program {
 			}
 		}
 	}
+	// g4: a request whose answer is computed from several lookups (405 Allow list) while a transaction
+	// moves a route from one method to another: the answer must come from one committed state
+	for wi, w := range []Op{
+		{Kind: Txn, Commit: true, StepIn: true, Sub: []Op{d(0), h(4, 7)}},
+		{Kind: Txn, Commit: true, StepIn: true, Sub: []Op{h(4, 7), d(0)}},
+		{Kind: Txn, Commit: true, Sub: []Op{d(0), h(5, 7)}},
+		h(4, 7), d(0)} {
+		out = append(out, &Program{Name: fmt.Sprintf("g4-%d", wi), Init: State{1, 0, 0, 0, 0, 0}, Opts: noMethod,
+			Threads: [][]Op{{w}, {rd(Allow, 0), rd(Allow, 0)}}})
+	}
+	// g5: concurrent readers only, on lookups that backtrack (scheduling points inside the lookup via
+	// the tagged hooks): readers must not share scratch state
+	bt := State{0, 0, 0, 0, 0, 0, 0, 0, 1, 1}
+	readOps := []Op{rd(Reverse, 8), rd(Route, 8), rd(Has, 9), rd(Route, 0), rd(Reverse, 9), rd(Serve, 8), rd(Lookup, 8), rd(Reverse, 2)}
+	for i, a := range readOps {
+		for j, b := range readOps {
+			out = append(out, &Program{Name: fmt.Sprintf("g5-%d-%d", i, j), Init: bt, Threads: [][]Op{{a}, {b, a}}})
+		}
+	}
 	// g3: a fourth sibling inserted under a node that got its third child by plain insertion; the
 	// new child sorts before the existing ones. Writers: direct, committed and aborted transactions.
 	sib := State{0, 1, 0, 0, 0, 0, 1, 1} // /ab, /ac, /ad
@@ -100,6 +121,8 @@ func Generated(quick bool) []*Program {
 	}
 	return out
 }
+
+func noMethod() []fox.GlobalOption { return []fox.GlobalOption{fox.WithNoMethod(true)} }
 
 func all() []*mc.Scenario {
 	var scs []*mc.Scenario
